@@ -312,7 +312,7 @@ func runC16(c *h.Ctx) {
 			pc := j2t.NewBinaryConv(conv.Options{WriteDefaultField: true, WriteOptionalField: true, WriteRequireField: true})
 			pc.Do(context.Background(), desc, []byte(`{}`))
 		}
-		jc := j2t.NewBinaryConv(copts)
+		jc := newJ2T(cs, copts)
 		out, jerr := jc.Do(context.Background(), desc, []byte(doc))
 		switch {
 		case cls == "miss-required":
